@@ -89,7 +89,11 @@ class C06(runner.Check):
 		"fails by an injected exception}. Every completed attribution row is compared "
 		"with the canonical single-example result, every returned reference bit for "
 		"bit. Non-trivial: at least one batch straddled two examples or a "
-		"perturbation preceded a call; distinct = distinct event-log digests.")
+		"perturbation preceded a call; distinct = distinct event-log digests. Leg 'scale': "
+		"one evaluation = one deep_lift_shap call at a scale the sessions never reach "
+		"(20-90 examples x 12-40 shuffles in batches of 1025..n*ns rows, or 2^15+k / "
+		"2^16+k examples with one shuffle); ~16 sampled rows incl. the last ones and those "
+		"around 32768 / 65536 are compared with the example computed alone.")
 	assumptions = [
 		"models are float64 (as in the quantifier's C04 generator); attributions are "
 		"compared with rtol 1e-9 of the row scale because batching legitimately changes "
